@@ -827,6 +827,42 @@ func c09RawBody(c *Ctx) {
 	}
 	c.Floor("O9.7", "http.ReadRequest call sites", n, 1)
 	freshRequestRule(c, "O9.7", "RawAmmo")
+	// the same for requests built with http.NewRequest in the ammo providers: the body reader is made for this request
+	// (bytes.NewReader(body), strings.NewReader, bytes.NewBuffer...), nil or http.NoBody - not a reader kept in the entry,
+	// which every request built from a preloaded entry would share and drain
+	nNew := 0
+	for _, g := range P.PandoraFuncs() {
+		if !IsProdFile(P.File(g.Pos())) || !strings.Contains(PkgOf(g), "/components/providers/") {
+			continue
+		}
+		EachInstr(g, func(in ssa.Instruction) {
+			cl, ok := in.(*ssa.Call)
+			if !ok || !MatchCC(&cl.Call, Spec{"net/http", "", "NewRequest"}, Spec{"net/http", "", "NewRequestWithContext"}) {
+				return
+			}
+			nNew++
+			body := cl.Call.Args[len(cl.Call.Args)-1]
+			own := DerivesOnly(body, false, func(v ssa.Value) bool {
+				if IsNilConst(v) {
+					return true
+				}
+				if u, isU := v.(*ssa.UnOp); isU {
+					if gl, isG := u.X.(*ssa.Global); isG && gl.Name() == "NoBody" {
+						return true
+					}
+				}
+				rc, _ := CallOfValue(v)
+				if rc == nil || rc.Parent() != g {
+					return false
+				}
+				f := CalleeObj(&rc.Call)
+				return f != nil && f.Pkg() != nil && (f.Pkg().Path() == "bytes" || f.Pkg().Path() == "strings" || f.Pkg().Path() == "io") && strings.HasPrefix(f.Name(), "New")
+			})
+			c.Check(own, "O9.7", fk(g)+":body-reader-made-for-this-request", cl.Pos(),
+				"the body given to http.NewRequest must be a reader made in this call (bytes.NewReader(body), ...), nil or http.NoBody: a reader kept in the entry is shared by every request built from it")
+		})
+	}
+	c.Floor("O9.7", "http.NewRequest call sites in the ammo providers", nNew, 1)
 }
 
 // freshRequestRule: BuildRequest of the decoded-ammo type builds its request in the call (http.NewRequest / http.ReadRequest,
